@@ -509,7 +509,9 @@ type HashContext = {
 
 type Hash256Context = {
   writer: Hash256Writer;
-  active: Map<string, number>;
+  // the named types under expansion, per table of named types: a compiled module and createNamedType keep separate
+  // tables, and one name can denote two different types in them
+  active: Map<Record<string, Runtype>, Map<string, number>>;
 };
 
 export interface Runtype {
@@ -2466,7 +2468,13 @@ export abstract class BaseRefRuntype extends BaseRuntype {
     }
     // keyed by the name of the type being expanded: two names whose equal definitions were emitted as one shared
     // object are still two types (a doc comment on one of them makes them two objects)
-    const activeId = ctx.active.get(this.refName);
+    const table = this.getNamedRuntypes();
+    let active = ctx.active.get(table);
+    if (active == null) {
+      active = new Map();
+      ctx.active.set(table, active);
+    }
+    const activeId = active.get(this.refName);
     if (activeId != null) {
       ctx.writer.updateTag("cycleRef");
       ctx.writer.updateNumber(activeId);
@@ -2476,9 +2484,9 @@ export abstract class BaseRefRuntype extends BaseRuntype {
     // a back reference names its target by the stream offset at which the target's encoding starts: expansions that
     // are never referred back to leave no trace, so a counter of expansions would not say which enclosing type is meant
     const id = ctx.writer.position();
-    ctx.active.set(this.refName, id);
+    active.set(this.refName, id);
     to.hash256(ctx);
-    ctx.active.delete(this.refName);
+    active.delete(this.refName);
   }
   validate(ctx: ValidateContext, input: any): boolean {
     const to = this.getNamedRuntypes()[this.refName];
